@@ -211,7 +211,11 @@ int main(int argc, char** argv) {
                        v.a.push_back(JVal::dbl(ex[r.below(10)]));
                        break;
                      }
-                     default: v.a.push_back(JVal::dbl((double)(int64_t)r.below(1000000))); break;
+                     default:
+                       if (r.coin()) v.a.push_back(JVal::dbl((double)(int64_t)r.below(1000000)));
+                       else if (r.coin()) v.a.push_back(JVal::dbl(ldexp(r.coin() ? 1.0 : -1.0, (int)r.range(0, 2045) - 1022)));  // exact powers of two
+                       else { char b[32]; snprintf(b, sizeof b, "1e%d", (int)r.range(0, 630) - 322); v.a.push_back(JVal::dbl(strtod(b, nullptr))); }
+                       break;
                    }
                  }
                  if (r.below(6) == 0) v = v.a[0];
